@@ -265,6 +265,13 @@ def family_mm():
             def __init__(self, parent=None, name=None, values=None):
                 self.parent, self.name, self.values = parent, name, values if values is not None else []
 
+            # value equality: all Holder objects compare equal - an exporter must tell objects apart by identity
+            def __eq__(self, other):
+                return type(other) is type(self)
+
+            def __hash__(self):
+                return 11
+
         _MM = metamodel_from_str(GRAMMAR, classes=[Holder], builtins={"hext": Holder(None, "hext", [])})
     return _MM
 
